@@ -101,6 +101,18 @@ def run_case(case, ctx, st):
                     ctx.violation("train-reproduces-fit", f"train-probabilities-differ-from-fit/{mech_base}",
                                   observed={"max_abs_diff": float(np.max(np.abs(lf[0] - P_train))) if lf[0].shape == P_train.shape else "shape"},
                                   expected="<= 1e-9")
+        # same-shape *views* of the very array given to fit (reversed rows): memory is shared, rows are not the same
+        if not is_kauri and n >= 2:
+            ctx.count("training_view_comparisons")
+            Pv = np.asarray(est.predict_proba(X[::-1]))
+            if Pv.shape != P_train.shape or float(np.nanmax(np.abs(Pv - P_train[::-1]))) > 1e-9:
+                ctx.violation("per-sample", f"probabilities-depend-on-other-rows/{mech_base}",
+                              observed={"query": "X_train[::-1] (a view)", "max_abs_diff": float(np.nanmax(np.abs(Pv - P_train[::-1])))},
+                              expected="<= 1e-9")
+        elif is_kauri and n >= 2:
+            ctx.count("training_view_comparisons")
+            if not np.array_equal(np.asarray(est.predict(X[::-1])), pred_train[::-1]):
+                ctx.violation("per-sample", f"routing-depends-on-other-rows/{mech_base}", observed={"query": "X_train[::-1] (a view)"}, expected="equal")
         m = int(rng.integers(2, 25))
         fresh = gen.make_data(rng, m, d, "nonneg" if nonneg else "blobs") * float(rng.uniform(0.5, 2.0))
         Q = np.vstack([fresh, X[rng.integers(0, n, size=min(n, 6))]])
